@@ -604,6 +604,11 @@ func RunMany(c *hx.Ctx, prop string, n, par int, c10 bool) {
 		[]string{"S", "HG", "ZB:X*=ConnectionFailed:TM418"}, []string{"S", "PFc", "ZB:X*=ConnectionFailed:DR"},
 		[]string{"S", "ZB:X*=StreamRemoteReset:TM418"}, []string{"S", "ZB:X*=StreamOverflow:DR"})
 	fams = append(fams, fam{"bo", boCfg, boScripts})
+	// the client leaves while the wake-up is inside the upstream send of the next attempt (requests with a body / trailers)
+	fams = append(fams, fam{"bods", func() dsx.Cfg { cfg := boCfg(); cfg.Data = true; cfg.Trailers = rng.Chance(40); return cfg }, [][]string{
+		{"S", "ZB:X*=ConnectionFailed:DS"}, {"S", "ZB:R*=503=00:DS"}, {"S", "ZB:X*=ConnectionTermination:DS"}, {"S", "ZB:R*=503=10:DS"},
+		{"S", "X*:ConnectionFailed", "ZB:X*=ConnectionFailed:DS"},
+	}})
 	// … after a per-try timeout
 	fams = append(fams, fam{"bop", func() dsx.Cfg { cfg := boCfg(); cfg.TryTimeout = true; return cfg }, [][]string{
 		{"S", "ZB:P*:TM418"}, {"S", "ZB:P*:TMs403", "R*:200:00"}, {"S", "ZB:P*:DR"}, {"S", "ZB:P*:CC"}, {"S", "ZB:P*:HG"},
